@@ -11,7 +11,7 @@ namespace Csvq.Ref
     the view is put into the cache; the attributes of a table (header, JSON query, positions, …) are defaulted from
     the statement's options only when its FileInfo is made anew — a reload keeps the attributes of the first load -/
 def fxCacheLoad : List String :=
-  ["if(isCached){", "dispose", "if(err){", "return", "}", "}", "else{", "new_fileinfo", "if(err){", "return", "}", "set_default_attributes", "}",
+  ["if(isCached){", "dispose", "if(err){", "return", "}", "defer:if(err){", "defer:cache_set", "defer:}", "}", "else{", "new_fileinfo", "if(err){", "return", "}", "set_default_attributes", "}",
    "if(forUpdate){", "handler_update", "if(err){", "return", "}", "}",
    "else{", "handler_read", "if(err){", "return", "}", "defer:close_handler(h)", "}",
    "seek", "if(err){", "return", "}",
